@@ -530,6 +530,8 @@ class _SymNum:
             o = o.__index__() if not _isinstance(o, SymReal) else _unsupported("real exponent")
         if _isinstance(o, bool):
             o = int(o)
+        if _isinstance(o, float):
+            raise Unsupported("float exponent")  # a float result in Python; not modelled (inconclusive, never TypeError)
         if not _isinstance(o, int):
             return NotImplemented
         if o < 0:
